@@ -16,7 +16,11 @@ def _B(h):
     return bytes.fromhex(h)
 
 
-ENV = {"nan": NAN, "inf": INF, "S": _S, "B": _B, "V": lambda x: x, "complex": complex, "__builtins__": {}}
+class _E(str):
+    pass
+
+
+ENV = {"E": lambda x: _E(x), "nan": NAN, "inf": INF, "S": _S, "B": _B, "V": lambda x: x, "complex": complex, "__builtins__": {}}
 
 
 class Result:
